@@ -149,6 +149,9 @@ pub fn install_hooks() {
     });
 }
 
+/// Message of the pseudo-panic that ends a render exceeding its element budget.
+pub const BUDGET_MSG: &str = "__element_budget_exceeded__";
+
 pub fn take_last_panic() -> Option<String> {
     LAST_PANIC.with(|p| p.borrow_mut().take())
 }
@@ -162,6 +165,9 @@ pub fn catch<R>(f: impl FnOnce() -> R) -> Result<R, String> {
             if payload.is::<AbortExecution>() {
                 // the scheduler is tearing the execution down: keep unwinding to the task wrapper
                 std::panic::resume_unwind(payload);
+            }
+            if payload.is::<BudgetExceeded>() {
+                return Err(BUDGET_MSG.to_string());
             }
             let msg = take_last_panic().unwrap_or_else(|| {
                 if let Some(s) = payload.downcast_ref::<&str>() {
@@ -212,7 +218,28 @@ fn with_cur<R>(f: impl FnOnce(&Arc<Sched>, usize) -> R) -> Option<R> {
     cur.map(|(s, t)| f(&s, t))
 }
 
+/// Raised (as a panic payload) when one render exceeds its element budget.
+pub struct BudgetExceeded;
+
+thread_local! {
+    static ELEMENT_BUDGET: Cell<Option<u64>> = const { Cell::new(None) };
+}
+
+/// Arm the per-render budget of `template.element` / `parse.element` crossings on this thread.
+pub fn arm_budget(n: Option<u64>) {
+    ELEMENT_BUDGET.with(|b| b.set(n));
+}
+
 fn hook_yield(site: &'static str) {
+    ELEMENT_BUDGET.with(|b| {
+        if let Some(n) = b.get() {
+            if n == 0 {
+                b.set(None);
+                std::panic::resume_unwind(Box::new(BudgetExceeded));
+            }
+            b.set(Some(n - 1));
+        }
+    });
     with_cur(|s, t| s.sched_point(t, site));
 }
 
